@@ -218,7 +218,8 @@ def prune_token_dictionary(
         if min_frequency is not None:
             assert min_occurrences / total_tokens == min_frequency
         else:
-            min_frequency = min_occurrences / total_tokens
+            # no tokens at all (e.g. n-grams of documents shorter than n): nothing to prune
+            min_frequency = min_occurrences / total_tokens if total_tokens else 0.0
 
     if max_occurrences is None:
         if max_frequency is None:
@@ -227,7 +228,9 @@ def prune_token_dictionary(
         if max_frequency is not None:
             assert max_occurrences / total_tokens == max_frequency
         else:
-            max_frequency = min(1.0, max_occurrences / total_tokens)
+            max_frequency = (
+                min(1.0, max_occurrences / total_tokens) if total_tokens else 1.0
+            )
 
     # Prune by document frequency
     if min_document_occurrences is None:
